@@ -214,6 +214,9 @@ class GrantManager(Database):
 
     def _revoke_tree(self, node):
         node.revoke()
+        if isinstance(node, Grant):
+            # revoking a grant revokes every token issued on the basis of that grant
+            node.revoke_token()
         if isinstance(node, NodeInfo):
             for _sub in node.subordinate:
                 _sub_node = self.db[_sub]
